@@ -4,7 +4,8 @@ import vlib
 from checks.c09 import vlib_corpus
 from specgen import resp_spec
 
-LINES = ["data: 1", "data:2", "data: [1]", 'data: "a"', "data: x", "data:", "data", ": c", "event: e", "id: 3", "", "data: {", 'data: "é"', 'data: "😀"', "data: true", "retry: 5", "da", "data : 1"]
+LINES = ["data: 1", "data:2", "data: [1]", 'data: "a"', "data: x", "data:", "data", ": c", "event: e", "id: 3", "", "data: {", 'data: "é"', 'data: "😀"', "data: true", "retry: 5", "da", "data : 1",
+         "data: 1 x", "data: 1 2", 'data: {"a":1} z', "data: [1]]", "data: 1 "]          # a value followed by more text (F20-5)
 EOLS = ["\n", "\r\n", "\r"]
 
 
